@@ -45,14 +45,20 @@ ValidFor(c, p) == /\ (c.rule = "Alaska" => c.m1 >= c.m)
                   /\ (c.xfer = "random" \/ c.rule = "PluralityVeto" => IntegerBag(p))
                   /\ (c.rule = "DominatingSets" => DOMAIN p # {})
 
+(* every order in which the voters (unit ballots) of an integer bag can be asked: the environment's choice for PluralityVeto *)
+VoterOrders(p) == LET U == SetToSeq({x \in (DOMAIN p) \X (1..4) : x[2] <= p[x[1]][1]})
+                      N == Len(U)
+                  IN {[i \in 1..N |-> U[s[i]][1]] : s \in Orders(1..N)}
 MInit == /\ target \in 0..MaxBallots /\ status = "build" /\ prof = NoBallots /\ prof0 = NoBallots /\ sprof0 = NoBallots
          /\ cands = Cand /\ scands = Cand /\ cur = Cand /\ thr = 0 /\ rounds = <<>> /\ cfg = Base /\ stage = "main" /\ plabel = R(1)
+         /\ vorder = <<>>
 AddBallot == /\ status = "build" /\ Cardinality(DOMAIN prof) < target
              /\ \E r \in Rankings \ DOMAIN prof : \E w \in Weights :
                    prof' = [x \in DOMAIN prof \cup {r} |-> IF x = r THEN w ELSE prof[x]]
-             /\ UNCHANGED <<cfg, cands, prof0, sprof0, scands, cur, thr, rounds, status, stage, plabel, target>>
+             /\ UNCHANGED <<cfg, cands, prof0, sprof0, scands, cur, thr, rounds, status, stage, plabel, target, vorder>>
 Start == /\ status = "build" /\ Cardinality(DOMAIN prof) = target
-         /\ \E c \in Configs : ValidFor(c, prof) /\ StartNext(c, prof, Cand)
+         /\ \E c \in Configs : ValidFor(c, prof) /\
+              \E vo \in (IF c.rule = "PluralityVeto" THEN VoterOrders(prof) ELSE {<<>>}) : StartNext(c, prof, Cand, vo)
          /\ UNCHANGED target
 MElectSimul == ElectSimul /\ UNCHANGED target
 MElectOne == ElectOne /\ UNCHANGED target
@@ -67,8 +73,9 @@ MDictatorExhausted == DictatorExhausted /\ UNCHANGED target
 MBoostedDraw == BoostedDraw /\ UNCHANGED target
 MLastCandidate == LastCandidate /\ UNCHANGED target
 MVetoEliminate == VetoEliminate /\ UNCHANGED target
+MVetoShort == VetoShort /\ UNCHANGED target
 MVetoElect == VetoElect /\ UNCHANGED target
-MNext == AddBallot \/ Start \/ MElectSimul \/ MElectOne \/ MDefaultElect \/ MEliminate \/ MOneShotElect \/ MTieredElect \/ MCut \/ MRunoff \/ MDictatorDraw \/ MDictatorExhausted \/ MBoostedDraw \/ MLastCandidate \/ MVetoEliminate \/ MVetoElect
+MNext == AddBallot \/ Start \/ MElectSimul \/ MElectOne \/ MDefaultElect \/ MEliminate \/ MOneShotElect \/ MTieredElect \/ MCut \/ MRunoff \/ MDictatorDraw \/ MDictatorExhausted \/ MBoostedDraw \/ MLastCandidate \/ MVetoEliminate \/ MVetoShort \/ MVetoElect
 MSpec == MInit /\ [][MNext]_mvars /\ WF_mvars(MNext)
 
 \* ---- invariants (one INVARIANT line per property clause in the .cfg)
